@@ -118,4 +118,207 @@ theorem exp_series_zero :
   fin_cases i <;> fin_cases j <;> simp [expRaw, hat3]
 end SO2T
 
+
+/-! ## SO3 -/
+namespace SO3T
+
+/-- the quaternion returned by the generic branch, written out -/
+theorem expRaw_generic (t : SO3T ℝ) (h : realEps < t.v.x * t.v.x + (t.v.y * t.v.y + t.v.z * t.v.z)) :
+    expRaw t = ⟨Real.sin (1 / 2 * Real.sqrt (t.v.x * t.v.x + (t.v.y * t.v.y + t.v.z * t.v.z))) * (t.v.x / Real.sqrt (t.v.x * t.v.x + (t.v.y * t.v.y + t.v.z * t.v.z))),
+                Real.sin (1 / 2 * Real.sqrt (t.v.x * t.v.x + (t.v.y * t.v.y + t.v.z * t.v.z))) * (t.v.y / Real.sqrt (t.v.x * t.v.x + (t.v.y * t.v.y + t.v.z * t.v.z))),
+                Real.sin (1 / 2 * Real.sqrt (t.v.x * t.v.x + (t.v.y * t.v.y + t.v.z * t.v.z))) * (t.v.z / Real.sqrt (t.v.x * t.v.x + (t.v.y * t.v.y + t.v.z * t.v.z))),
+                Real.cos (1 / 2 * Real.sqrt (t.v.x * t.v.x + (t.v.y * t.v.y + t.v.z * t.v.z)))⟩ := by
+  have hp : 0 < t.v.x * t.v.x + (t.v.y * t.v.y + t.v.z * t.v.z) := lt_trans realEps_pos h
+  simp [expRaw, V3.sqNorm, sum3, h, Quat.ofAngleAxis, V3.normalized, hp, V3.divs]
+
+theorem hat_cube (t : SO3T ℝ) :
+    (hat t).toMatrix ^ 3 = (-(t.v.x * t.v.x + (t.v.y * t.v.y + t.v.z * t.v.z))) • (hat t).toMatrix := by
+  ext i j
+  fin_cases i <;> fin_cases j <;>
+    simp [hat, M3.skew, M3.toMatrix, pow_succ, Matrix.mul_apply, Fin.sum_univ_three] <;> ring
+
+/-- Eigen's quaternion → rotation-matrix conversion applied to `(s·a/θ, c)` is Rodrigues' matrix
+    with `sin θ = 2sc`, `1 − cos θ = 2s²` (pure algebra, any `s c`). -/
+theorem toRot_axis_angle (x y z θ s c : ℝ) (hθ : θ ≠ 0) :
+    (Quat.toRot (⟨s * (x / θ), s * (y / θ), s * (z / θ), c⟩ : Quat ℝ)).toMatrix =
+      1 + (2 * s * c / θ) • (hat ⟨⟨x, y, z⟩⟩).toMatrix +
+        ((1 - (1 - 2 * s ^ 2)) / θ ^ 2) • (hat ⟨⟨x, y, z⟩⟩).toMatrix ^ 2 := by
+  ext i j
+  fin_cases i <;> fin_cases j <;>
+    simp [Quat.toRot, hat, M3.skew, M3.toMatrix, pow_succ] <;>
+    field_simp <;> ring
+
+/-- **SO3, generic branch** (`θ² > eps`, every such tangent, `θ` beyond π included): the rotation
+    matrix of `exp t` is the exponential series of `hat t` — Rodrigues' formula reached through the
+    half-angle quaternion and Eigen's `toRotationMatrix`. -/
+theorem exp_series (t : SO3T ℝ) (h : realEps < t.v.x * t.v.x + (t.v.y * t.v.y + t.v.z * t.v.z)) :
+    HasExpSum (hat t).toMatrix (Quat.toRot (expRaw t)).toMatrix := by
+  have hp : 0 < t.v.x * t.v.x + (t.v.y * t.v.y + t.v.z * t.v.z) := lt_trans realEps_pos h
+  have hθpos : 0 < Real.sqrt (t.v.x * t.v.x + (t.v.y * t.v.y + t.v.z * t.v.z)) := Real.sqrt_pos.mpr hp
+  have hθ2 : Real.sqrt (t.v.x * t.v.x + (t.v.y * t.v.y + t.v.z * t.v.z)) ^ 2 =
+      t.v.x * t.v.x + (t.v.y * t.v.y + t.v.z * t.v.z) := Real.sq_sqrt hp.le
+  have hcube : (hat t).toMatrix ^ 3 =
+      (-(Real.sqrt (t.v.x * t.v.x + (t.v.y * t.v.y + t.v.z * t.v.z)) ^ 2)) • (hat t).toMatrix := by
+    rw [hθ2]; exact hat_cube t
+  have key := hasExpSum_of_cube (hat t).toMatrix _ hθpos.ne' hcube
+  convert key using 1
+  rw [expRaw_generic t h, toRot_axis_angle _ _ _ _ _ _ hθpos.ne']
+  have e : Real.sqrt (t.v.x * t.v.x + (t.v.y * t.v.y + t.v.z * t.v.z)) =
+      2 * (1 / 2 * Real.sqrt (t.v.x * t.v.x + (t.v.y * t.v.y + t.v.z * t.v.z))) := by ring
+  have hs : Real.sin (Real.sqrt (t.v.x * t.v.x + (t.v.y * t.v.y + t.v.z * t.v.z))) =
+      2 * Real.sin (1 / 2 * Real.sqrt (t.v.x * t.v.x + (t.v.y * t.v.y + t.v.z * t.v.z))) *
+        Real.cos (1 / 2 * Real.sqrt (t.v.x * t.v.x + (t.v.y * t.v.y + t.v.z * t.v.z))) := by
+    conv_lhs => rw [e, Real.sin_two_mul]
+  have hc : Real.cos (Real.sqrt (t.v.x * t.v.x + (t.v.y * t.v.y + t.v.z * t.v.z))) =
+      1 - 2 * Real.sin (1 / 2 * Real.sqrt (t.v.x * t.v.x + (t.v.y * t.v.y + t.v.z * t.v.z))) ^ 2 := by
+    conv_lhs => rw [e, Real.cos_two_mul]
+    nlinarith [Real.sin_sq_add_cos_sq (1 / 2 * Real.sqrt (t.v.x * t.v.x + (t.v.y * t.v.y + t.v.z * t.v.z)))]
+  rw [hs, hc]
+
+/-- the matrix exponential itself (Mathlib's `NormedSpace.exp`) -/
+theorem exp_eq_matrix_exp (t : SO3T ℝ) (h : realEps < t.v.x * t.v.x + (t.v.y * t.v.y + t.v.z * t.v.z)) :
+    NormedSpace.exp (hat t).toMatrix = (Quat.toRot (expRaw t)).toMatrix :=
+  (exp_series t h).exp_eq
+
+/-- rotation magnitude exactly zero: `exp 0 = identity`, the series of the zero matrix. -/
+theorem exp_series_zero :
+    HasExpSum (hat (⟨⟨0, 0, 0⟩⟩ : SO3T ℝ)).toMatrix (Quat.toRot (expRaw (⟨⟨0, 0, 0⟩⟩ : SO3T ℝ))).toMatrix := by
+  have hsq : (hat (⟨⟨0, 0, 0⟩⟩ : SO3T ℝ)).toMatrix ^ 2 = 0 := by
+    ext i j
+    fin_cases i <;> fin_cases j <;> simp [hat, M3.skew, M3.toMatrix, pow_succ, Matrix.mul_apply, Fin.sum_univ_three]
+  have key := hasExpSum_of_sq_zero _ hsq
+  convert key using 1
+  ext i j
+  fin_cases i <;> fin_cases j <;>
+    simp [expRaw, V3.sqNorm, sum3, realEps_pos, Quat.toRot, hat, M3.skew, M3.toMatrix, not_lt.mpr realEps_pos.le]
+
+theorem rot_expRaw (t : SO3T ℝ) (h : realEps < t.v.x * t.v.x + (t.v.y * t.v.y + t.v.z * t.v.z)) :
+    (Quat.toRot (expRaw t)).toMatrix =
+      1 + (Real.sin (Real.sqrt (t.v.x * t.v.x + (t.v.y * t.v.y + t.v.z * t.v.z))) /
+            Real.sqrt (t.v.x * t.v.x + (t.v.y * t.v.y + t.v.z * t.v.z))) • (hat t).toMatrix +
+        ((1 - Real.cos (Real.sqrt (t.v.x * t.v.x + (t.v.y * t.v.y + t.v.z * t.v.z)))) /
+            Real.sqrt (t.v.x * t.v.x + (t.v.y * t.v.y + t.v.z * t.v.z)) ^ 2) • (hat t).toMatrix ^ 2 := by
+  have hp : 0 < t.v.x * t.v.x + (t.v.y * t.v.y + t.v.z * t.v.z) := lt_trans realEps_pos h
+  have hθpos : 0 < Real.sqrt (t.v.x * t.v.x + (t.v.y * t.v.y + t.v.z * t.v.z)) := Real.sqrt_pos.mpr hp
+  rw [expRaw_generic t h, toRot_axis_angle _ _ _ _ _ _ hθpos.ne']
+  have e : Real.sqrt (t.v.x * t.v.x + (t.v.y * t.v.y + t.v.z * t.v.z)) =
+      2 * (1 / 2 * Real.sqrt (t.v.x * t.v.x + (t.v.y * t.v.y + t.v.z * t.v.z))) := by ring
+  have hs : Real.sin (Real.sqrt (t.v.x * t.v.x + (t.v.y * t.v.y + t.v.z * t.v.z))) =
+      2 * Real.sin (1 / 2 * Real.sqrt (t.v.x * t.v.x + (t.v.y * t.v.y + t.v.z * t.v.z))) *
+        Real.cos (1 / 2 * Real.sqrt (t.v.x * t.v.x + (t.v.y * t.v.y + t.v.z * t.v.z))) := by
+    conv_lhs => rw [e, Real.sin_two_mul]
+  have hc : Real.cos (Real.sqrt (t.v.x * t.v.x + (t.v.y * t.v.y + t.v.z * t.v.z))) =
+      1 - 2 * Real.sin (1 / 2 * Real.sqrt (t.v.x * t.v.x + (t.v.y * t.v.y + t.v.z * t.v.z))) ^ 2 := by
+    conv_lhs => rw [e, Real.cos_two_mul]
+    nlinarith [Real.sin_sq_add_cos_sq (1 / 2 * Real.sqrt (t.v.x * t.v.x + (t.v.y * t.v.y + t.v.z * t.v.z)))]
+  rw [hs, hc]
+
+/-- left Jacobian of SO3 in the generic branch, as a polynomial in `hat` -/
+theorem ljac_generic (t : SO3T ℝ) (h : realEps < t.v.x * t.v.x + (t.v.y * t.v.y + t.v.z * t.v.z)) :
+    (ljac t).toMatrix =
+      1 + ((1 - Real.cos (Real.sqrt (t.v.x * t.v.x + (t.v.y * t.v.y + t.v.z * t.v.z)))) /
+            Real.sqrt (t.v.x * t.v.x + (t.v.y * t.v.y + t.v.z * t.v.z)) ^ 2) • (hat t).toMatrix +
+        ((Real.sqrt (t.v.x * t.v.x + (t.v.y * t.v.y + t.v.z * t.v.z)) -
+            Real.sin (Real.sqrt (t.v.x * t.v.x + (t.v.y * t.v.y + t.v.z * t.v.z)))) /
+            Real.sqrt (t.v.x * t.v.x + (t.v.y * t.v.y + t.v.z * t.v.z)) ^ 3) • (hat t).toMatrix ^ 2 := by
+  have hp : 0 < t.v.x * t.v.x + (t.v.y * t.v.y + t.v.z * t.v.z) := lt_trans realEps_pos h
+  have hθpos : 0 < Real.sqrt (t.v.x * t.v.x + (t.v.y * t.v.y + t.v.z * t.v.z)) := Real.sqrt_pos.mpr hp
+  have hθ2 : Real.sqrt (t.v.x * t.v.x + (t.v.y * t.v.y + t.v.z * t.v.z)) ^ 2 =
+      t.v.x * t.v.x + (t.v.y * t.v.y + t.v.z * t.v.z) := Real.sq_sqrt hp.le
+  have e : Real.sqrt (t.v.x * t.v.x + (t.v.y * t.v.y + t.v.z * t.v.z)) =
+      2 * (Real.sqrt (t.v.x * t.v.x + (t.v.y * t.v.y + t.v.z * t.v.z)) / 2) := by ring
+  have hc : Real.cos (Real.sqrt (t.v.x * t.v.x + (t.v.y * t.v.y + t.v.z * t.v.z))) =
+      1 - 2 * Real.sin (Real.sqrt (t.v.x * t.v.x + (t.v.y * t.v.y + t.v.z * t.v.z)) / 2) ^ 2 := by
+    conv_lhs => rw [e, Real.cos_two_mul]
+    nlinarith [Real.sin_sq_add_cos_sq (Real.sqrt (t.v.x * t.v.x + (t.v.y * t.v.y + t.v.z * t.v.z)) / 2)]
+  have hnle : ¬ t.v.x * t.v.x + (t.v.y * t.v.y + t.v.z * t.v.z) ≤ realEps := not_le.mpr h
+  unfold ljac
+  simp only [V3.sqNorm, sum3, scalar_le, scalar_eps, transc_eps_real, hnle, decide_false, Bool.false_eq_true, if_false,
+    M3.toMatrix_add, M3.toMatrix_one, M3.toMatrix_smul, M3.toMatrix_mul, scalar_sqrt, transc_sqrt_real, scalar_sin,
+    transc_sin_real, scalar_nat, Nat.cast_ofNat, smul_mul_assoc]
+  rw [hc]
+  generalize Real.sqrt (t.v.x * t.v.x + (t.v.y * t.v.y + t.v.z * t.v.z)) = θ at hθpos hθ2 ⊢
+  rw [← hθ2, ← pow_two]
+  congr 2
+  · congr 1
+    field_simp
+    ring
+
+example : realEps < (1 : ℝ) * 1 + (0 * 0 + 0 * 0) := by unfold realEps; norm_num
+end SO3T
+
+/-! ## SE3 -/
+/-- `[R p; 0 1]` from a Mathlib matrix and vector -/
+def hom4M (R : Matrix (Fin 3) (Fin 3) ℝ) (p : Fin 3 → ℝ) : Matrix (Fin 4) (Fin 4) ℝ :=
+  !![R 0 0, R 0 1, R 0 2, p 0; R 1 0, R 1 1, R 1 2, p 1; R 2 0, R 2 1, R 2 2, p 2; 0, 0, 0, 1]
+
+theorem hom4_eq_hom4M (R : M3 ℝ) (t : V3 ℝ) : hom4 R t = hom4M R.toMatrix t.toVec := by
+  ext i j
+  fin_cases i <;> fin_cases j <;> simp [hom4, hom4M, M3.toMatrix, V3.toVec]
+
+namespace SE3T
+
+/-- `hat` as a Mathlib matrix -/
+def hat4 (t : SE3T ℝ) : Matrix (Fin 4) (Fin 4) ℝ :=
+  !![0, -t.ang.z, t.ang.y, t.lin.x; t.ang.z, 0, -t.ang.x, t.lin.y; -t.ang.y, t.ang.x, 0, t.lin.z; 0, 0, 0, 0]
+
+theorem hat4_quartic (t : SE3T ℝ) :
+    hat4 t ^ 4 = (-(t.ang.x * t.ang.x + (t.ang.y * t.ang.y + t.ang.z * t.ang.z))) • hat4 t ^ 2 := by
+  ext i j
+  fin_cases i <;> fin_cases j <;>
+    simp [hat4, pow_succ, Matrix.mul_apply, Fin.sum_univ_four] <;> ring
+
+/-- the cubic polynomial in `hat4` is the homogeneous matrix of the cubic polynomials in the
+    rotation block (pure algebra, any coefficients) -/
+theorem poly_blocks (t : SE3T ℝ) (a b : ℝ) :
+    1 + hat4 t + a • hat4 t ^ 2 + b • hat4 t ^ 3 =
+      hom4M (1 + (SO3T.hat t.asSO3).toMatrix + a • (SO3T.hat t.asSO3).toMatrix ^ 2 + b • (SO3T.hat t.asSO3).toMatrix ^ 3)
+        ((1 + a • (SO3T.hat t.asSO3).toMatrix + b • (SO3T.hat t.asSO3).toMatrix ^ 2).mulVec t.lin.toVec) := by
+  ext i j
+  fin_cases i <;> fin_cases j <;>
+    simp [hat4, hom4M, asSO3, SO3T.hat, M3.skew, M3.toMatrix, V3.toVec, pow_succ, Matrix.mul_apply,
+      Matrix.mulVec, dotProduct, Fin.sum_univ_four, Fin.sum_univ_three, Matrix.one_apply] <;> ring
+
+
+/-- **SE3, generic branch**: the homogeneous matrix of `exp t` is the exponential series of `hat t`. -/
+theorem exp_series (t : SE3T ℝ) (h : realEps < t.ang.x * t.ang.x + (t.ang.y * t.ang.y + t.ang.z * t.ang.z)) :
+    HasExpSum (hat4 t) (hom4 (Quat.toRot (expRaw t).2) (expRaw t).1) := by
+  have hp : 0 < t.ang.x * t.ang.x + (t.ang.y * t.ang.y + t.ang.z * t.ang.z) := lt_trans realEps_pos h
+  have hθpos : 0 < Real.sqrt (t.ang.x * t.ang.x + (t.ang.y * t.ang.y + t.ang.z * t.ang.z)) := Real.sqrt_pos.mpr hp
+  have hθ2 : Real.sqrt (t.ang.x * t.ang.x + (t.ang.y * t.ang.y + t.ang.z * t.ang.z)) ^ 2 =
+      t.ang.x * t.ang.x + (t.ang.y * t.ang.y + t.ang.z * t.ang.z) := Real.sq_sqrt hp.le
+  have hq : hat4 t ^ 4 =
+      (-(Real.sqrt (t.ang.x * t.ang.x + (t.ang.y * t.ang.y + t.ang.z * t.ang.z)) ^ 2)) • hat4 t ^ 2 := by
+    rw [hθ2]; exact hat4_quartic t
+  have key := hasExpSum_of_quartic (hat4 t) _ hθpos.ne' hq
+  convert key using 1
+  have hcube := SO3T.hat_cube t.asSO3
+  have hrot := SO3T.rot_expRaw t.asSO3 h
+  have hjac := SO3T.ljac_generic t.asSO3 h
+  simp only [asSO3] at hcube hrot hjac
+  rw [hom4_eq_hom4M, expRaw, M3.toVec_mulVec]
+  simp only [asSO3]
+  rw [hrot, hjac, poly_blocks]
+  simp only [asSO3]
+  congr 1
+  -- rotation block: 1 + W + aW² + bW³ with W³ = -θ²W
+  generalize Real.sqrt (t.ang.x * t.ang.x + (t.ang.y * t.ang.y + t.ang.z * t.ang.z)) = θ at hθpos hθ2 ⊢
+  rw [hcube, ← hθ2, smul_smul]
+  have : (θ - Real.sin θ) / θ ^ 3 * -θ ^ 2 = Real.sin θ / θ - 1 := by field_simp; ring
+  rw [this, sub_smul, one_smul]
+  abel
+
+/-- the matrix exponential itself (Mathlib's `NormedSpace.exp`) -/
+theorem exp_eq_matrix_exp (t : SE3T ℝ) (h : realEps < t.ang.x * t.ang.x + (t.ang.y * t.ang.y + t.ang.z * t.ang.z)) :
+    NormedSpace.exp (hat4 t) = hom4 (Quat.toRot (expRaw t).2) (expRaw t).1 :=
+  (exp_series t h).exp_eq
+
+/-- `hat4` is the model's `hat()` (row-major 4×4) -/
+theorem hat4_eq_hatRows (t : SE3T ℝ) : hat4 t = matOfRows 4 t.hatRows := by
+  ext i j
+  fin_cases i <;> fin_cases j <;> simp [hat4, hatRows, matOfRows]
+
+example : realEps < (0 : ℝ) * 0 + (1 * 1 + 0 * 0) := by unfold realEps; norm_num
+end SE3T
+
 end Manif
